@@ -499,8 +499,8 @@ def npu_find_block_configs(npu_op: NpuOperation, accelerator: NpuAccelerator) ->
     max_block_height = min(arch.ofm_block_max.height, ofm_shape.height)
     max_block_depth = min(arch.ofm_block_max.depth, ofm_shape.depth)
 
-    min_block_height = max(arch.ofm_ublock.height, 2 if ifm_resampling_mode != NpuResamplingMode.NONE else 1)
-    min_block_width = max(arch.ofm_ublock.width, 2 if ifm_resampling_mode != NpuResamplingMode.NONE else 1)
+    min_block_height = max(arch.ofm_ublock.height, 2 if npu_op.ifm_upscale != NpuResamplingMode.NONE else 1)
+    min_block_width = max(arch.ofm_ublock.width, 2 if npu_op.ifm_upscale != NpuResamplingMode.NONE else 1)
 
     valid_block_configs = []
     for w in range(min_block_width, max_block_width + min_block_width, min_block_width):
